@@ -30,8 +30,9 @@ def uri_to_path(u):
 
 
 class Server:
-    def __init__(self, binary=None, env=None, cwd=None, timeout=20.0, trace=None):
+    def __init__(self, binary=None, env=None, cwd=None, timeout=20.0, trace=None, reply_delay=0.0):
         self.timeout = timeout
+        self.reply_delay = reply_delay      # a slow client: server->client requests are answered only after this many seconds
         self.trace = trace          # optional list collecting {"dir","method","id","summary"} events
         self.proc = subprocess.Popen([binary or C.SERVER_BIN], stdin=subprocess.PIPE, stdout=subprocess.PIPE,
                                      stderr=subprocess.DEVNULL, env=C.scrubbed_env(env), cwd=cwd)
@@ -86,10 +87,17 @@ class Server:
             self.server_requests += 1
             if self.trace is not None:
                 self.trace.append({"dir": "s2c", "method": msg["method"], "id": msg["id"]})
-            try:
-                self._send({"jsonrpc": "2.0", "id": msg["id"], "result": None})
-            except ServerDied:
-                pass
+            def reply(mid=msg["id"]):
+                try:
+                    self._send({"jsonrpc": "2.0", "id": mid, "result": None})
+                except ServerDied:
+                    pass
+            if self.reply_delay:
+                t = threading.Timer(self.reply_delay, reply)
+                t.daemon = True
+                t.start()
+            else:
+                reply()
             return
         with self.cv:
             if "method" in msg:
